@@ -39,12 +39,17 @@ def groupsEqual (dirs : List Dir) (g g' : Groups) : Bool :=
   dirs.all fun d => tokensOf g d == tokensOf g' d
 
 def groupVerdict (dirs : List Dir) (g g' : Groups) : String :=
-  if groupsEqual dirs g g' && groupsEqual (g.map (·.1) ++ g'.map (·.1)) g g' then "ok"
-  else "bad:groups-differ:reordering the lines changed the tokens a directive receives"
+  if groupsEqual dirs g g' && groupsEqual (g.map (·.1) ++ g'.map (·.1)) g g' then
+    if (tokensOf g "!parse-error").isSome && !dirs.contains "!parse-error" then
+      "bad:parse-error:neither the block nor its reordering parses"
+    else "ok"
+  else "bad:groups-differ:reordering the lines changed the tokens a directive receives (or whether the block parses)"
 
 def verdict (D : List Dir) (chain chain' : List Dir) (responsesEqual : Bool) : String :=
-  if chain ≠ chain' then "bad:chain-differs:reordering the lines changed the handler nesting"
-  else if !canonical D chain then "bad:not-list-order:handler nesting does not follow the directive list"
+  if chain ≠ chain' then "bad:chain-differs:reordering the lines changed the handler nesting (or whether the block loads)"
+  else if !canonical D chain then
+    if chain = ["!start-error"] then "bad:start-error:neither the block nor its reordering loads"
+    else "bad:not-list-order:handler nesting does not follow the directive list"
   else if !responsesEqual then "bad:responses-differ:some request is answered differently after reordering"
   else "ok"
 
